@@ -97,7 +97,7 @@ def OrSpec (a : Spec α) (bm : α → Prop) (res : Option (Spec α)) : Prop :=
 
 theorem any_range_canon : Canon (.range (o : Range α)) ↔ o.WF := Iff.rfl
 
-theorem unionOrRange_spec (xs : List (Range α)) (xt : Option String) (hx : Canon (.union xs xt))
+theorem unionOrRange_spec (xs : List (Range α)) (xt : Option (Clause α)) (hx : Canon (.union xs xt))
     (o : Range α) (ho : o.WF) : OrSpec (.union xs xt) o.mem (unionOrRange xs o) := by
   unfold unionOrRange OrSpec
   by_cases hr : o.isAny = true
